@@ -292,6 +292,7 @@ Backtrack:
 		current = skipped.n.children[skipped.childIndex]
 
 		*c.params = (*c.params)[:skipped.paramCnt]
+		paramCnt = skipped.paramCnt
 		charsMatched = skipped.pathIndex
 		goto Walk
 	}
@@ -593,6 +594,7 @@ Backtrack:
 		current = skipped.n.children[skipped.childIndex]
 
 		*c.params = (*c.params)[:skipped.paramCnt]
+		paramCnt = skipped.paramCnt
 		charsMatched = skipped.pathIndex
 		goto Walk
 	}
